@@ -74,7 +74,8 @@ def gen_world(r, tier):
     for p in range(nplates):
         pl = {'plate': base + p, 'mjd': r.randint(51600, 58000), 'nfib': r.randint(6, 12),
               'masks': masks, 'photoplate': photoplate, 'zbest': zbest,
-              'skybits': r.random() < 0.3, 'nbadpix': r.choice([0, 0, 0, 3])}
+              'skybits': r.random() < 0.3, 'nbadpix': r.choice([0, 0, 0, 3]),
+              'nan_flux': r.random() < 0.06}
         if mixed and p == 0:
             if r.random() < 0.5:
                 pl['photoplate'] = not photoplate
@@ -122,6 +123,13 @@ def gen_par(r, w):
              ['snmax', '100'], ['niter', str(r.randint(2, 4))], ['nkeep', str(r.choice([4, 4, 4, 5, 2]))],
              ['minuse', str(r.choice([1, 3, 3, 3, 3, 50]))], ['aesthetics', r.choice(['mean', 'mean', 'noise', 'damp', 'nothing'])],
              ['run2d', sp['run2d']], ['run1d', sp['run1d']]]
+    u0 = r.random()
+    if u0 < 0.12:
+        pairs.append(['binsz', '1.0e-4'])          # optional keyword, honoured
+    elif u0 < 0.18:
+        pairs.append(['binsz', 'abc'])             # optional keyword, unusable (falls back)
+    elif u0 < 0.24:
+        pairs.append(['comment', 'free text # with a hash'])
     if method == 'hmf':
         pairs += [['epsilon', r.choice(['-1.0', '0.5'])], ['nonnegative', r.choice(['0', '0', '1'])]]
     # rows: a few fibres from each plate
@@ -277,6 +285,9 @@ def gen_invocation(r, w, tier, j, stratum=0, force=None):
         env['SPECTRO_MATCH'] = _env_state(r, (0.5, 0.4, 0.1))
         env['PHOTO_RESOLVE'] = _env_state(r, (0.5, 0.4, 0.1))
         inv['env'] = env
+        # how the caller names the dump file: absolute, relative to the cwd, pathlib.Path,
+        # or inside a directory that does not exist (fails when the dump is written)
+        inv['dumparg'] = r.choice(['abs', 'abs', 'abs', 'rel', 'path', 'nodir'])
         u2 = r.random()
         if u2 < 0.55:
             inv['dump'] = 'keep'
